@@ -258,6 +258,16 @@ pub fn run(ctx: &Ctx) -> Rep {
                 check_set(st, b);
             }
             st.rep.distinct += v.len() as u64;
+            if !ctx.smoke() {
+                // every value whose set bits fit in a 16-bit window (every byte value at every byte position ...)
+                let mut n = 0u64;
+                drive::for_each_window_value(|b| {
+                    check_set(st, b);
+                    n += 1;
+                });
+                st.rep.add("values_within_a_16_bit_window", n);
+                st.rep.distinct += n;
+            }
             return;
         }
         let mut rng = Rng::new(seed, 0xC14_0000 + ch as u64);
